@@ -316,6 +316,43 @@ pub fn run(cx: &mut Cx) {
         );
     }
 
+    // (a') line pools: for each of five keys, every document of three records
+    // (thorough: four) whose bodies are sequences of at most two lines over a
+    // pool of four fixed lines - the same byte-identical line in neighbouring
+    // records, repeated, overridden, invalid-then-overridden.
+    {
+        let nrec = cx.pick_tier(2usize, 3, 3, 4);
+        let total = gs::POOL_BODIES.pow(nrec as u32);
+        let keep = cx.pick_tier(4u64, 4, 1, 1);
+        let mut case = 0u64;
+        for key in 0..gs::POOL_KEYS.len() {
+            for code in 0..total {
+                case += 1;
+                if !cx.mine(case) || (keep > 1 && crate::rng::hash_bytes(&case.to_le_bytes()) % keep != 0) {
+                    continue;
+                }
+                let mut bodies = vec![];
+                let mut c = code;
+                for _ in 0..nrec {
+                    bodies.push(c % gs::POOL_BODIES);
+                    c /= gs::POOL_BODIES;
+                }
+                let doc = gs::pool_doc(key, &bodies);
+                cx.check(
+                    || format!("line-pool document ({}), {} records: {}", gs::POOL_KEYS[key], doc.records, show(&doc.bytes)),
+                    |ev| {
+                        ev.count("class/line-pool");
+                        ev.count(&format!("line-pool/{}", gs::POOL_KEYS[key]));
+                        let got = ScanIndex::from_reader(&doc.bytes[..]);
+                        judge(ev, &doc, got, "slice reader")?;
+                        ev.nontrivial(hash_bytes(&doc.bytes));
+                        Ok(())
+                    },
+                );
+            }
+        }
+    }
+
     // (b) one content fault per document.
     let n = cx.per_shard(48, 1_500, 24_000, 240_000);
     let mut r = cx.stream("faults");
